@@ -195,6 +195,7 @@ func RunWorker(cfg WorkerConfig) int {
 	wseed := MixSeed(cfg.Seed, HashString(cfg.Prop.ID()), uint64(cfg.Worker))
 	part.FirstSeed = wseed
 	exit := 0
+	tainted := false
 
 	for i := int64(0); ; i++ {
 		if cfg.MaxRuns > 0 && i >= cfg.MaxRuns {
@@ -264,8 +265,16 @@ func RunWorker(cfg WorkerConfig) int {
 			shrinkDeadline = time.Now().Add(60 * time.Second)
 		}
 
+		if v.Class == "hang" {
+			budget = 40
+		}
+
 		if v.Class == "hang-busy" {
-			budget = 6
+			// a client goroutine is spinning inside avfs and cannot be unwound: no shrinking
+			// (every attempt would cost a watchdog period and leak another goroutine); the
+			// worker reports what it has and ends.
+			budget = 0
+			tainted = true
 		}
 
 		final := res
@@ -292,9 +301,13 @@ func RunWorker(cfg WorkerConfig) int {
 
 		// re-run the shrunk tape to obtain its exact trace.
 		rt := ReplayTape(shrunk)
-		ctx.Shrink = true
-		r2 := cfg.Prop.Run(ctx, rt)
-		ctx.Shrink = false
+		r2 := RunResult{}
+
+		if !tainted {
+			ctx.Shrink = true
+			r2 = cfg.Prop.Run(ctx, rt)
+			ctx.Shrink = false
+		}
 
 		if r2.Violation != nil && r2.Violation.Prop == v.Prop && r2.Violation.Class == v.Class {
 			final = r2
@@ -325,7 +338,7 @@ func RunWorker(cfg WorkerConfig) int {
 		part.ReplayFiles = append(part.ReplayFiles, path)
 		exit = 1
 
-		if len(part.Violations) >= 3 {
+		if len(part.Violations) >= 3 || tainted {
 			break
 		}
 	}
